@@ -3,7 +3,7 @@ fitted parameters."""
 import ast
 
 from sa.helpers import (mkflow, spec, code, one, calls, bind_call, param_env,
-                        fmt, atom_of, unparse, walk_no_nested)
+                        fmt, atom_of, unparse, walk_no_nested, unalloc)
 from sa.index import AnalysisError, FuncInfo
 from sa.algebra import RF, dotted
 
@@ -113,8 +113,8 @@ def mutators(ix, R):
                             why.append('slot %d (%s) becomes %s' % (k, layout[k], fmt(fl, x)))
                     elif not fl.tab.equal(x, fl.tab.atom('idx', (src, fl.tab.const(k)))):
                         why.append('slot %d (%s) is not passed through: %s' % (k, layout[k], fmt(fl, x)))
-            if st.guards and name != 'set_mode':
-                why.append('store is conditional: %s' % [g.text() for g in st.guards])
+            if [g for g in st.guards if not g.early] or st.loops:
+                why.append('store is conditional: %s' % [g.text() for g in st.guards if not g.early])
             R.check('5.slot', 'EFF', site,
                     '%s rewrites exactly slot %d (%s) of the tuple and passes the other %d through' % (
                         name, slot, layout[slot], len(layout) - 1),
@@ -206,6 +206,16 @@ def prior_table(ix, R):
                     ws = attr_writers(ix, c, s)
                     if not ws <= user_only:
                         why.append('rebuilt from self.%s which is written by %s' % (s, sorted(ws - user_only)))
+                    # ... and set_prior really records the user's prior there, under the parameter's name
+                    sp = ix.func(OPT + '.set_prior')
+                    sfl = mkflow(ix, sp)
+                    sps = sp.params()
+                    want_t = spec(sfl, 'self.%s[p]' % s, {'p': sfl.tab.name(sps[1])})
+                    hit = [e for e in sfl.of('store') if sfl.tab.equal(e.target, want_t) and
+                           sfl.tab.equal(e.value, sfl.tab.name(sps[2])) and not [g for g in e.guards if not g.early]
+                           and not e.loops]
+                    if len(hit) != 1:
+                        why.append('set_prior does not store the prior as self.%s[parameter] unconditionally' % s)
                 va = atom_of(fl, rebuilt.value)
                 if src_attrs and not (va is not None and va.head == 'call' and va.extra[0] in (
                         'fn:dict', 'fn:self.%s.copy' % list(src_attrs)[0])):
@@ -246,7 +256,28 @@ def prior_table(ix, R):
                 'the priors returned by both compile passes are merged into the table that fit_names / fit_latex index '
                 '(the helper replaces an empty table by a new dictionary, so in-place filling cannot be relied on)',
                 not why, key='; '.join(why), detail='; '.join(why), loc=f.loc())
-        # results: extend in the same order
+        # results: the three lists are what the model pass returned, extended by what the observation pass returned
+        why = []
+        r1 = fl.tab.atom('call', tuple(cps[0].args), extra=('fn:compile_params',))
+        r2 = fl.tab.atom('call', tuple(cps[1].args), extra=('fn:compile_params',))
+        for attr_, k in (('fitting_parameters', 0), ('fitting_priors', 1), ('derived_parameters', 3)):
+            asg = [e for e in fl.of('store') if fmt(fl, e.target) == 'self.' + attr_ and
+                   fl.events.index(e) > fl.events.index(cps[0])]
+            if len(asg) != 1 or asg[0].guards or asg[0].loops or \
+                    not fl.tab.equal(asg[0].value, fl.tab.atom('idx', (r1, fl.tab.const(k)))):
+                why.append('self.%s is not assigned element %d of the model pass' % (attr_, k))
+            ex = [e for e in calls(fl, 'extend') if unparse(e.node.func) == 'self.%s.extend' % attr_]
+            if len(ex) != 1 or ex[0].guards or ex[0].loops or \
+                    not fl.tab.equal(ex[0].args[0], fl.tab.atom('idx', (r2, fl.tab.const(k)))) or \
+                    (asg and fl.events.index(ex[0]) < fl.events.index(asg[0])):
+                why.append('self.%s is not extended by element %d of the observation pass' % (attr_, k))
+        for ce in cps:
+            if ce.guards or ce.loops:
+                why.append('a compile pass is conditional')
+        R.check('4.assign', 'ARG', site,
+                'fitting_parameters / fitting_priors / derived_parameters = elements 0 / 1 / 3 of the model pass, each '
+                'extended by the same element of the observation pass; both passes run unconditionally on every compile',
+                not why, key='; '.join(why), detail='; '.join(why), loc=f.loc())
         sts = {fmt(fl, e.target): e for e in fl.of('store') if not e.loops}
         ext = [e for e in calls(fl, 'extend')]
         okx = len(ext) >= 2
@@ -334,6 +365,30 @@ def compile_fn(ix, R):
         for e in pr:
             if lp not in e.loops or not any(fl.tab.equal(x.rf, tofit) and x.positive for x in e.guards):
                 why.append('prior appended outside the fitted branch')
+            if len(e.guards) != 2 or len(e.loops) != 1:
+                why.append('prior appended under %s' % [x.text() for x in e.guards])
+        # the table: the caller's (or a new one), and every default is entered under its name
+        tblv = [e for e in fl.of('assign') if not e.loops and not e.guards and
+                (fl.tab.equal(e.value, spec(fl, 'pri or {}', pe)) or fl.tab.equal(e.value, spec(fl, 'pri or dict()', pe)))]
+        if len(tblv) != 1:
+            why.append('the prior table is not `fit_priors or {}`')
+        else:
+            tbl = tblv[0].value
+            ent = [e for e in fl.of('store') if atom_of(fl, e.target) is not None and atom_of(fl, e.target).head == 'idx'
+                   and fl.tab.equal(atom_of(fl, e.target).args[0], tbl)]
+            if len(ent) != 1 or not dflt or not fl.tab.equal(atom_of(fl, ent[0].target).args[1], name) or \
+                    not fl.tab.equal(ent[0].value, dflt[0].args[0]) or \
+                    [(g.node, g.positive) for g in ent[0].guards] != [(g.node, g.positive) for g in dflt[0].guards]:
+                why.append('the default prior is not entered in the table under the parameter name in the same branch')
+            for e in user:
+                ua = atom_of(fl, e.args[0])
+                if ua is not None and ua.head == 'idx' and not fl.tab.equal(ua.args[0], tbl):
+                    why.append('stored prior is read from %s' % fmt(fl, ua.args[0]))
+            for g in (dflt[0].guards if dflt else []):
+                a_ = atom_of(fl, g.rf)
+                if a_ is not None and a_.head == 'cmp' and a_.extra[0] in ('In', 'NotIn') and not (
+                        fl.tab.equal(a_.args[0], name) and fl.tab.equal(a_.args[1], tbl)):
+                    why.append('membership test is %s' % g.text())
         R.check('4.default', 'ALG', site,
                 "default prior: LogUniform(lin_bounds=bounds) when mode == 'log', else Uniform(bounds=bounds); "
                 'a stored prior is looked up by the parameter name; one prior per fitted parameter, same order',
@@ -352,7 +407,10 @@ def compile_fn(ix, R):
                 loc=f.loc(d.node))
         r = one(fl.of('return'), 'return')
         okr = [unparse(x) for x in r.value_ast.elts][:2] == ['fitting_parameters', 'fitting_priors'] and \
-            unparse(r.value_ast.elts[3]) == 'derived_parameters'
+            unparse(r.value_ast.elts[3]) == 'derived_parameters' and not r.guards and not r.loops
+        ra = atom_of(fl, r.value)
+        okr = okr and ra is not None and ra.head == 'tuple' and len(ra.args) == 4 and bool(tblv) and \
+            fl.tab.equal(ra.args[2], tblv[0].value)
         R.check('4.ret', 'ARG', site, 'returns (fitted tuples, their priors, prior table, derived tuples)',
                 okr, key=unparse(r.value_ast), detail=unparse(r.value_ast), loc=f.loc(r.node))
 
@@ -426,6 +484,46 @@ def tuple_layout(ix, R):
                 elts == [ps[0], ps[1], ps[2] + '.__get__(self)', ps[3]] and
                 unparse(st.targets[0]) == 'self._derived_dict[%s]' % ps[0],
                 key=str(elts), detail='tuple is %s' % elts, loc=f.loc(st))
+    # the two definitions are only skipped for a duplicate name (which raises); modify_bounds rewrites slot 6
+    for nm in ('add_fittable_param', 'add_derived_param'):
+        site = FT + '::Fittable.' + nm
+        with R.guard('8.def.uncond', 'DOM', site, 'registration'):
+            f = ix.func(site)
+            fl = mkflow(ix, site)
+            st = one(fl.of('store'), 'store')
+            bad = [g for g in st.guards if not g.early] or st.loops
+            rs = fl.of('raise')
+            R.check('8.def.uncond', 'DOM', site,
+                    'the tuple is registered unless the name already exists, in which case the call raises',
+                    not bad and len(rs) == 1 and fl.events.index(rs[0]) < fl.events.index(st),
+                    key='conditional registration', detail='store under %s, %d raises' % ([g.text() for g in st.guards], len(rs)),
+                    loc=f.loc(st.node))
+    site = FT + '::Fittable.modify_bounds'
+    with R.guard('5.slot.bounds', 'EFF', site, 'modify_bounds'):
+        f = ix.func(site)
+        fl = mkflow(ix, site)
+        ps = f.params()
+        sts = fl.of('store')
+        why = []
+        if len(sts) != 1:
+            why.append('%d stores' % len(sts))
+        else:
+            st = sts[0]
+            par = fl.tab.name(ps[1])
+            src = spec(fl, 'self._param_dict[p]', {'p': par})
+            va = atom_of(fl, st.value)
+            if not fl.tab.equal(st.target, src) or st.guards or st.loops:
+                why.append('stores at %s under %s' % (unparse(st.target_ast), [g.text() for g in st.guards]))
+            if va is None or va.head != 'tuple' or len(va.args) != 7:
+                why.append('stores %s' % fmt(fl, st.value))
+            else:
+                for k, x in enumerate(va.args):
+                    want = fl.tab.name(ps[2]) if k == 6 else fl.tab.atom('idx', (src, fl.tab.const(k)))
+                    if not fl.tab.equal(x, want):
+                        why.append('slot %d (%s) becomes %s' % (k, FIT_LAYOUT[k], fmt(fl, x)))
+        R.check('5.slot.bounds', 'EFF', site,
+                'modify_bounds rewrites exactly slot 6 (bounds) of the registered tuple with the new bounds and passes the other 6 through',
+                not why, key='; '.join(why), detail='; '.join(why), loc=f.loc())
     # unpackings
     n7 = n4 = 0
     for fn in list(ix.functions_in(OP)) + list(ix.functions_in(FT)):
@@ -568,17 +666,53 @@ def collect(ix, R):
             'chemistry and every contribution, into a fresh dictionary')
     with R.guard('6.collect', 'TAB', site, stmt):
         f = ix.func(site)
-        ups = [unparse(n.args[0]) for n in ast.walk(f.node) if isinstance(n, ast.Call) and
-               isinstance(n.func, ast.Attribute) and n.func.attr == 'update' and
-               unparse(n.func.value) == 'self._fitting_parameters']
-        want = ['self.fitting_parameters()', 'self._planet.fitting_parameters()',
-                'self._star.fitting_parameters()', 'self.pressure.fitting_parameters()',
-                'self._temperature_profile.fitting_parameters()', 'self._chemistry.fitting_parameters()',
-                'contrib.fitting_parameters()']
-        first = f.body()[0]
-        fresh = isinstance(first, ast.Assign) and unparse(first) == 'self._fitting_parameters = {}'
-        R.check('6.collect', 'TAB', site, stmt, sorted(ups) == sorted(want) and fresh,
-                key='%s' % ups, detail='collected from %s (fresh=%s)' % (ups, fresh), loc=f.loc())
+        fl = mkflow(ix, site)
+        ups = [e for e in calls(fl, 'update') if e.recv_rf is not None and
+               fl.tab.equal(e.recv_rf, code(fl, 'self._fitting_parameters'))]
+        why = []
+        srcs = {'self': None, 'self._planet': None, 'self._star': 'self._star is not None', 'self.pressure': None,
+                'self._temperature_profile': None, 'self._chemistry': None}
+        seen = set()
+        contrib = 0
+        for e in ups:
+            at = atom_of(fl, e.args[0]) if e.args else None
+            # the argument is <component>.fitting_parameters()
+            node = e.node.args[0] if e.node.args else None
+            if not (isinstance(node, ast.Call) and isinstance(node.func, ast.Attribute) and
+                    node.func.attr == 'fitting_parameters' and not node.args):
+                why.append('update(%s)' % (unparse(node) if node is not None else ''))
+                continue
+            comp = fl.conv.expr(node.func.value) if not e.loops else None
+            if e.loops:
+                lp = e.loops[0]
+                if len(e.loops) == 1 and fl.tab.equal(lp.iter_rf[0], code(fl, 'self.contribution_list')) and \
+                        isinstance(node.func.value, ast.Name) and isinstance(lp.node.target, ast.Name) and \
+                        node.func.value.id == lp.node.target.id and not e.guards:
+                    contrib += 1
+                else:
+                    why.append('%s in loop %s under %s' % (unparse(node), unparse(lp.iter_ast), [g.text() for g in e.guards]))
+                continue
+            key = unparse(node.func.value)
+            if key not in srcs:
+                why.append('collects from %s' % key)
+                continue
+            seen.add(key)
+            lic = srcs[key]
+            bad = [g for g in e.guards if not (lic is not None and g.positive and fl.tab.equal(g.rf, spec(fl, lic)))]
+            if bad:
+                why.append('%s collected only under %s' % (key, [g.text() for g in bad]))
+        if seen != set(srcs):
+            why.append('not collected: %s' % sorted(set(srcs) - seen))
+        if contrib != 1:
+            why.append('contributions are not collected in one unconditional loop over contribution_list')
+        init = [e for e in fl.of('store') if fmt(fl, e.target) == 'self._fitting_parameters']
+        fresh = len(init) == 1 and not init[0].guards and not init[0].loops and \
+            fmt(fl, unalloc(fl, init[0].value)) in ('dict()', 'tuple()') and \
+            (not ups or fl.events.index(init[0]) < fl.events.index(ups[0]))
+        if not fresh:
+            why.append('the dictionary is not created afresh first')
+        R.check('6.collect', 'TAB', site, stmt, not why,
+                key='; '.join(why), detail='; '.join(why), loc=f.loc())
 
 
 def run(ix, R):
@@ -627,4 +761,13 @@ EQUIVALENTS = [
     ('latex-rename', OP, r're:\blatex\b', 'tex'),
     ('enable-inline', OP, "        to_fit = True\n        obj.fittingParameters[parameter] = (name, latex, fget, fset, mode, to_fit, bounds)", "        obj.fittingParameters[parameter] = (name, latex, fget, fset, mode, True, bounds)"),
     ('default-prior-else', OP, "                if mode == 'log':\n                    prior = LogUniform(lin_bounds=bounds)\n                else:\n                    prior = Uniform(bounds=bounds)", "                if mode == 'linear':\n                    prior = Uniform(bounds=bounds)\n                else:\n                    prior = LogUniform(lin_bounds=bounds)"),
+]
+UNCONDITIONAL = [
+    (OP, 'fitting_priors.append(prior)'),
+    (OP, '_fit_priors[name] = prior'),
+    (OP, 'self._user_priors[parameter] = prior'),
+    (OP, 'self.fitting_parameters.extend(obs_fit)'),
+    (OP, 'self._fit_priors.update(_model_priors)'),
+    (FT, 'self._param_dict[parameter] = (name, latex, fget, fset, mode, to_fit, bounds)'),
+    ('taurex/model/simplemodel.py', 'self._fitting_parameters.update(self._chemistry.fitting_parameters())'),
 ]
